@@ -11,6 +11,8 @@ cases
   ["session", [text, ...], want_cpp] -> [{"sha", "exc", "changed": [module-level objects whose content changed], "cpp"?}, ...]
                                       the texts transpiled one after the other in THIS process
   ["rematch", file, name, pattern, flags, [text, ...]] -> [bool, ...]   real re: does the pattern match the whole text
+  ["variants", text]               -> {"exc", "wall", "parses": [[name, null | [type label, ...]], ...] (first 4000), "n_parses",
+                                      "n_blocks"}   the _parse_function / _parse_simple_lines invocations of one parse()+emit()
 """
 import ast
 import hashlib
@@ -269,6 +271,31 @@ def do_session(texts, want_cpp, limit):
     return out
 
 
+def do_variants(text, limit):
+    """one parse()+emit() with counting wrappers around _parse_function (every body parse: name, forced signature) and
+    _parse_simple_lines (every block parse) - the work units of the def / call machinery"""
+    log, blocks = [], [0]
+    real_pf, real_psl = P._parse_function, P._parse_simple_lines
+
+    def pf(name, params_src, block, ctx, *, forced_signature=None):
+        log.append([name, None if forced_signature is None else list(forced_signature)])
+        return real_pf(name, params_src, block, ctx, forced_signature=forced_signature)
+
+    def psl(*a, **k):
+        blocks[0] += 1
+        return real_psl(*a, **k)
+
+    P._parse_function, P._parse_simple_lines = pf, psl
+    try:
+        r = do_script(text, limit)
+    finally:
+        P._parse_function, P._parse_simple_lines = real_pf, real_psl
+    r["n_parses"] = len(log)
+    r["parses"] = log[:4000]
+    r["n_blocks"] = blocks[0]
+    return r
+
+
 def do_rematch(fname, name, pattern, flags, texts):
     import re as _re
     obj = None
@@ -316,6 +343,13 @@ def main():
                 signal.alarm(0)
         elif c[0] == "session":
             out.append(do_session(c[1], bool(c[2]) if len(c) > 2 else False, limit))
+        elif c[0] == "variants":
+            if stop_after is not None and n_timeouts >= stop_after:
+                out.append({"exc": "Skipped", "msg": "earlier scripts of this batch ran into the limit", "audit": [], "wall": 0.0, "n_parses": 0, "parses": [], "n_blocks": 0})
+                continue
+            out.append(do_variants(c[1], limit))
+            if out[-1]["exc"] == "Timeout":
+                n_timeouts += 1
         elif c[0] == "rematch":
             out.append(do_rematch(c[1], c[2], c[3], c[4], c[5]))
         elif c[0] == "tables":
